@@ -50,9 +50,14 @@ pub fn rand_placed_lib(rng: &mut Rng, max_cells: usize, with_abstracts: bool) ->
     let mut cells: Vec<Ptr<Cell>> = Vec::new();
     let mut names: Vec<String> = Vec::new();
     let mut deps: Vec<Vec<usize>> = Vec::new();
+    // one library in five names its cells from a family of equally long names that differ in one character only
+    let family = if rng.chance(1, 5) { Some(crate::rt::prng::NameFamily::random(rng)) } else { None };
     for i in 0..n {
-        let mut name = format!("{}{}", rng.pick(&["tcell", "Unit", "blk_", "Top"]), i);
-        if rng.chance(1, 6) {
+        let mut name = match &family {
+            Some(f) => f.name(i),
+            None => format!("{}{}", rng.pick(&["tcell", "Unit", "blk_", "Top"]), i),
+        };
+        if family.is_none() && rng.chance(1, 6) {
             // a long, mostly non-ASCII name (names are spliced into the converters' error messages and map keys)
             let tl = 150 + rng.usize(200);
             let tail = String::from_utf8(crate::gen::gdsgen::long_nonascii(rng, tl)).unwrap();
